@@ -25,12 +25,12 @@ Fixpoint answers_ok (a : list answer) (x : list expect) : bool :=
 Record icase := {
   i_classes : classes;
   i_heap : heap;
-  i_sealed : list bool;            (* sealed flags when the history starts *)
+  i_cache : cstate;                (* sealed flags and cached identifiers when the history starts *)
   i_ops : list op;
   i_expect : list expect }.
 
 Definition run_case (fixflag : bool) (c : icase) : list answer :=
-  run sha256 (i_classes c) (i_heap c) (hash_fuel (i_heap c)) fixflag (map centry0 (i_sealed c)) (i_ops c).
+  run sha256 (i_classes c) (i_heap c) (hash_fuel (i_heap c)) fixflag (i_cache c) (i_ops c).
 
 Definition check_case (c : icase) : bool := answers_ok (run_case true c) (i_expect c).
 (* the pinned commit's machine (flag never seen by the cache test) *)
